@@ -1,7 +1,9 @@
 """C13 -- encoded output always decodes and re-parses to the same sheet.
 
 proof:          coq/props/C13.v  (escapecss_decodes, escape_resolves, encode_decode_resolve, escape_matched_whole,
-                escape_token_stable, charset_rule_first, encoding_mirrors_charset) over coq/theories/EscapeEnc.v + the shared tokenizer model
+                escape_token_stable, escaped_<class>_first_token (token boundaries, via C09's lexeme theorems),
+                escape_resolves_general (texts with backslashes), encoded_reparse_detects (C14's detector, all branches),
+                charset_rule_first, encoding_mirrors_charset, history_encoding_accepted) over coq/theories/EscapeEnc.v + the shared tokenizer model
 tie:            translate/escapeenc.py regenerates the handler's format / slice / handler name / @charset format /
                 codec prefix (fail-closed); translate/tokenizer.py the escape regex and the resolved-type list;
                 the extracted model is compared with str.encode(e, 'escapecss'), bytes.decode, the tokenizer,
@@ -456,8 +458,53 @@ def codec_facts(e):
                 asc_ok = False
         if c < 128 and b[len(bom):] != bytes([c]):
             transparent = False
+    # characterisation of `good`: what each excluded character is encoded to and what those bytes decode to
+    bad_detail = []
+    for c in bad[:64]:
+        b = chr(c).encode(e)
+        try:
+            back = " ".join("U+%04X" % ord(x) for x in b.decode(e))
+        except UnicodeError:
+            back = "UnicodeDecodeError"
+        bad_detail.append("U+%04X -> %s -> %s" % (c, b[len(bom):].hex(), back))
     return {"codec": e, "bom": list(bom), "encodable": nenc, "bad": bad, "ascii_ok": asc_ok,
-            "transparent": transparent}
+            "transparent": transparent, "bad_detail": bad_detail, "family": codec_family(e)}
+
+
+FAMILY_NAMES = {"FSig": "utf-8-sig", "F16": "utf-16", "F16B": "utf-16", "F32": "utf-32", "F32B": "utf-32",
+                "F16LE": "utf-16-le", "F16BE": "utf-16-be", "F32LE": "utf-32-le", "F32BE": "utf-32-be"}
+
+
+def codec_family(e):
+    """the hypothesis family_ok of EscapeEncDetect.v, decided from how the codec writes its BOM, '@' and 'c';
+    None = no family (then encoded_reparse_detects says nothing about it).  For the non-@charset families the
+    family's name must denote the same Python codec as e."""
+    bom = "".encode(e)
+    at, cc = "@".encode(e)[len(bom):], "c".encode(e)[len(bom):]
+    fam = None
+    if bom == b"" and all(chr(c).encode(e) == bytes([c]) for c in range(128)):
+        return "FCharset"
+    if bom == b"\xef\xbb\xbf":
+        fam = "FSig"
+    elif bom == b"\xff\xfe" and at == b"@\x00":
+        fam = "F16"
+    elif bom == b"\xfe\xff":
+        fam = "F16B"
+    elif bom == b"\xff\xfe\x00\x00":
+        fam = "F32"
+    elif bom == b"\x00\x00\xfe\xff":
+        fam = "F32B"
+    elif bom == b"" and at == b"@\x00" and cc == b"c\x00":
+        fam = "F16LE"
+    elif bom == b"" and at == b"\x00@":
+        fam = "F16BE"
+    elif bom == b"" and at == b"@\x00\x00\x00":
+        fam = "F32LE"
+    elif bom == b"" and at == b"\x00\x00\x00@":
+        fam = "F32BE"
+    if fam and codecs.lookup(FAMILY_NAMES[fam]).name != codecs.lookup(e).name:
+        return None
+    return fam
 
 
 def codec_text_check(args):
@@ -727,6 +774,8 @@ def run(ctx):
             problem = "%s on %r" % (r[2], r[1])
         elif e not in BOM_FAMILY and not f["transparent"]:
             problem = "not ASCII transparent"
+        elif f["family"] is None:
+            problem = "belongs to no detection family of EscapeEncDetect.family_ok"
         if problem:
             if e in QUICK_CODECS:
                 ctx.broken("hypothesis", "codec %s" % e, problem)
@@ -945,6 +994,10 @@ def run(ctx):
         "codecs": codecs_used,
         "codecs_dropped": dropped,
         "codec_nonroundtrip_chars": {e: ["U+%04X" % c for c in sorted(b)[:12]] for e, b in bad_chars.items() if b},
+        "good_predicate": "good c = the codec decodes its own encoding of c back to c; complement, complete per codec "
+                          "(character -> bytes written -> what they decode to): "
+                          + json.dumps({e: facts[e]["bad_detail"] for e in codecs_used if facts[e]["bad"]}),
+        "codec_families": {e: facts[e]["family"] for e in codecs_used},
         "cases_skipped_nonroundtrip_char": skipped_bad,
         "sheets_skipped_not_text_stable": len(not_stable),
         "sheets_skipped_not_text_stable_samples": sorted(not_stable)[:8],
@@ -973,7 +1026,7 @@ TRUSTED = [
     "Coq 8.16.1 kernel and VM (vm_compute in the closed examples); no native_compute",
     "translate/escapeenc.py (AST shape of _escapecss, register_error, do_CSSStyleSheet, do_CSSCharsetRule, "
     "helper.string, the codec's prefix) and translate/tokenizer.py + regexlib.py (escape regex, resolved-type list)",
-    "Section hypotheses about a codec (dec_enc_text_hyp, ascii_encodable_hyp, ascii_transparent_hyp): CPython's "
+    "Section hypotheses about a codec (dec_enc_text_hyp, ascii_encodable_hyp, ascii_transparent_hyp, family_ok): CPython's "
     "codecs are not modelled; validated here for every codec used over all 0x110000 code points and random texts",
     "extraction (ExtrOcamlBasic) + ocamlfind ocamlopt, ocaml/escapeenc_driver.ml",
     "correspondence harness harness/props/c13.py (generators, the object-model extractor, comparisons)",
